@@ -32,6 +32,7 @@ type E2Spec struct {
 	PoolFirst  bool   `json:"pool_first"`  // a requested transaction may enter the pool before OnTransaction is called
 	NotifyFirst bool  `json:"notify_first"` // OnTransaction is called before GetTx can serve the transaction
 	ForeignTx  bool   `json:"foreign_tx"` // while a transaction request is outstanding the application may also hand over transactions nobody asked for
+	WatchFlip  bool   `json:"watch_flip"` // the WatchOnly callback of the (so far active) validator starts answering true at an arbitrary moment
 	Once       bool   `json:"once"`       // every payload is delivered at most once (saturation strata: all orders of one fixed message set)
 	RecReq     bool   `json:"rec_req"`
 	Bundles    bool   `json:"bundles"`
@@ -404,6 +405,9 @@ func (w *World) e2Enabled() []Event {
 				evs = append(evs, Event{K: "tx", N: x.id, P: h})
 			}
 		}
+	}
+	if sp.WatchFlip && !x.watchNow && x.kind == kHonest && !x.pendingReset {
+		evs = append(evs, Event{K: "watch", N: x.id})
 	}
 	if !sp.NoTimeout && x.wantsTimer() {
 		evs = append(evs, Event{K: "timeout", N: x.id})
